@@ -128,3 +128,132 @@ def show(e):
     if k == "?":
         return "?<%s>" % e[1][:60]
     return "%s(%s)" % (k, ", ".join(show(x) if isinstance(x, tuple) else str(x) for x in e[1:]))
+
+
+# ----------------------------------------------------------------------------- byte vectors
+# An integer expression assembled from bytes (from_be_bytes / from_le_bytes of an array literal,
+# or widening casts, shifts by multiples of 8 and bit-or) is normalised to the tuple of its
+# bytes, least significant first, at the width of its type: `u16::from_be_bytes([a, b])` and
+# `(a as u16) << 8 | b as u16` are the same vector (b, a).
+
+BYTES = {"u8": 1, "u16": 2, "u32": 4, "u64": 8, "usize": 8, "u128": 16}
+ZERO = ("int", 0)
+
+
+def bv(t, env=None):
+    """fixed-width little-endian byte vector of the integer term t, or None"""
+    return _bv(strip(t), env or {})
+
+
+def _is_byte_nf(n):
+    k = n[0]
+    if k == "int":
+        return 0 <= n[1] < 256
+    if k in ("idx", "sym", "wadd", "wsub", "xor", "wadd2"):
+        return True
+    if k in ("and", "or"):
+        return all(_is_byte_nf(x) for x in n[1])
+    if k == "trunc":
+        return n[1] == "u8"
+    return False
+
+
+def _bv(t, env):
+    k = t[0]
+    if t in env:
+        return None
+    if k == "int":
+        w = BYTES.get(t[2]) if len(t) > 2 else None
+        if w is None or t[1] < 0:
+            return None
+        return tuple(("int", (t[1] >> (8 * i)) & 0xFF) for i in range(w))
+    if k == "cast" and t[1] == "IntToInt" and t[3] in BYTES:
+        w = BYTES[t[3]]
+        inner = _bv(t[2], env)
+        if inner is None:
+            return None
+        return (inner + (ZERO,) * w)[:w]
+    if k == "call":
+        name = t[1]
+        if name in WIDEN_INTO or name.startswith("std::convert::num::<impl std::convert::From<u") or name.startswith("core::convert::num::<impl std::convert::From<u"):
+            # u16::from(u8) etc: the target width is in the impl name `... for uN>::from`
+            inner = _bv(t[2][0], env)
+            tgt = name.split(" for ")[-1].split(">")[0] if " for " in name else None
+            if inner is None or tgt not in BYTES:
+                return None
+            w = BYTES[tgt]
+            return (inner + (ZERO,) * w)[:w] if w >= len(inner) else None
+        if name.startswith("core::num::<impl ") and name.split("::")[-1] in ("from_be_bytes", "from_le_bytes"):
+            ity = name[len("core::num::<impl "):].split(">")[0]
+            arr = _n(t[2][0], env, ())
+            if ity in BYTES and arr[0] == "arr" and len(arr[1]) == BYTES[ity] and all(_is_byte_nf(x) for x in arr[1]):
+                return tuple(reversed(arr[1])) if name.endswith("from_be_bytes") else tuple(arr[1])
+            return None
+    if k == "binop":
+        op = t[1]
+        if op in ("Shl", "ShlUnchecked", "Shr", "ShrUnchecked"):
+            a = _bv(t[2], env)
+            s = t[3]
+            while s[0] == "cast":
+                s = s[2]
+            if a is None or s[0] != "int" or s[1] % 8 or s[1] < 0 or s[1] >= 8 * len(a):
+                return None
+            n = s[1] // 8
+            if op.startswith("Shl"):
+                return ((ZERO,) * n + a)[:len(a)]
+            return a[n:] + (ZERO,) * n
+        if op == "BitOr":
+            a, b = _bv(t[2], env), _bv(t[3], env)
+            if a is None or b is None or len(a) != len(b):
+                return None
+            out = []
+            for x, y in zip(a, b):
+                if x == ZERO:
+                    out.append(y)
+                elif y == ZERO:
+                    out.append(x)
+                elif x[0] == "int" and y[0] == "int":
+                    out.append(("int", x[1] | y[1]))
+                else:
+                    out.append(("or", frozenset([x, y])))
+            return tuple(out)
+    n = _n(t, env, ())
+    if n[0] == "trunc" and n[1] == "u8":
+        return (n,)
+    if _is_byte_nf(n) and n[0] != "sym":
+        return (n,)
+    return None
+
+
+def bv_trim(v):
+    """drop the zero bytes at the high end (widths differ between spellings of one value)"""
+    v = tuple(v)
+    while v and v[-1] == ZERO:
+        v = v[:-1]
+    return v
+
+
+def byte_canon(n):
+    """normal form of "byte j of the integer x" (j = 0 is the least significant), whichever way
+    it is spelled: x.to_be_bytes()[k], x.to_le_bytes()[k], (x >> 8*j) as u8, x as u8"""
+    if not isinstance(n, tuple) or not n:
+        return n
+    k = n[0]
+    if k == "idx" and n[1][0] in ("tobe", "tole") and n[2][0] == "int" and n[1][1] in BYTES:
+        w = BYTES[n[1][1]]
+        j = n[2][1]
+        if 0 <= j < w:
+            return ("byte", byte_canon(n[1][2]), (w - 1 - j) if n[1][0] == "tobe" else j)
+    if k == "trunc" and n[1] == "u8":
+        x = n[2]
+        if x[0] in ("Shr", "ShrUnchecked") and x[2][0] == "int" and x[2][1] % 8 == 0:
+            return ("byte", byte_canon(x[1]), x[2][1] // 8)
+        if x[0] == "and" and len(x[1]) == 2 and ("int", 255) in x[1]:
+            rest = [y for y in x[1] if y != ("int", 255)][0]
+            return byte_canon(("trunc", "u8", rest))
+        return ("byte", byte_canon(x), 0)
+    if k in ("and", "or", "xor", "wadd"):
+        return (k, frozenset(byte_canon(x) for x in n[1]))
+    if k == "arr":
+        return ("arr", tuple(byte_canon(x) for x in n[1]))
+    return n
